@@ -119,6 +119,52 @@ def digits_target(d):
     return t
 
 
+def reconfigured(which, n, kind):
+    """the decorated function's reconfiguration hooks (.samples / .index / .digits / .type / .clip): after a hook call the new
+    setting is what gets imposed"""
+    def h(ctx):
+        import mystic.constraints as C
+        x, arg = inputs(ctx, n, kind)
+        obs = []
+        if which == 'discrete.samples':
+            g = C.discrete([1.0, 2.0, 5.0])(ident)
+            g.samples([7.0, 1.0, 3.5])                       # given out of order
+            S2 = [1.0, 3.5, 7.0]
+            y = L.vec(g(arg))
+            for i in range(n):
+                obs.append(('member-of-the-new-sample-set[%d]' % i, Or(*[eq(y[i], v) for v in S2])))
+                obs.append(('nearest-member-of-the-new-sample-set[%d]' % i, And(*[le(absv(y[i] - x[i]), absv(R(v) - x[i])) for v in S2])))
+            obs.append(('idempotent', veq(L.vec(g(L.arr(y) if kind == 'array' else list(y))), y)))
+        elif which == 'discrete.index':
+            g = C.discrete([1.0, 2.0, 5.0])(ident)
+            g.index((1,))
+            y = L.vec(g(arg))
+            for i in range(n):
+                obs.append((('selected-entry-in-set[%d]' % i), Or(*[eq(y[i], v) for v in SAMPLES])) if i == 1 else ('unselected-entry-unchanged[%d]' % i, eq(y[i], x[i])))
+        elif which == 'rounded.digits':
+            g = C.rounded(0)(ident)
+            g.digits(1)
+            y = L.vec(g(arg))
+            for i in range(n):
+                obs.append(('rounded-to-the-new-digits[%d]' % i, digits_target(1)(x[i], y[i])))
+        elif which == 'integers.index':
+            g = C.integers(float)(ident)
+            g.index((0, -1))
+            y = L.vec(g(arg))
+            for i in range(n):
+                obs.append((('selected-entry-integer[%d]' % i), int_target(x[i], y[i])) if i in (0, n - 1) else ('unselected-entry-unchanged[%d]' % i, eq(y[i], x[i])))
+        elif which == 'impose_bounds.clip':
+            g = C.impose_bounds((0.0, 5.0))(ident)
+            y1 = L.vec(g(arg))                               # clip
+            g.clip(False)
+            y2 = L.vec(g(L.arr(y1) if kind == 'array' else list(y1)))
+            obs.append(('conforming-result-unchanged-after-switching-mode', veq(y2, y1)))
+            for i in range(n):
+                obs.append(('clipped[%d]' % i, eq(y1[i], minv(maxv(x[i], R(0)), R(5)))))
+        return obs
+    return h
+
+
 # ----------------------------------------------------------------------------- order
 def ordering(which, ascending, n, index, kind):
     def h(ctx):
@@ -388,6 +434,9 @@ def instances(tier, seed):
                                                                                   lambda v, d=d: is_int_hyp(scaled(v, d)), n, index, kind)))
             out.append(Instance('precision/digits=1/%s' % tag, elementwise('precision', lambda C, i: C.precision(1, index=i), digits_target(1),
                                                                            lambda v: is_int_hyp(scaled(v, 1)), n, index, kind)))
+    for which in ('discrete.samples', 'discrete.index', 'rounded.digits', 'integers.index', 'impose_bounds.clip'):
+        for kind in kinds:
+            out.append(Instance('reconfigured/%s/%s' % (which, kind), reconfigured(which, n, kind)))
     for which in ('sorting', 'monotonic'):
         for asc in (True, False):
             for index in ([None, (0, 2), (2, 0, 1), (1,)] if q else [None, (0, 2), (2, 0, 1), (1,), (-1, 0), (0, 1, 2, 3)]):
